@@ -437,6 +437,16 @@ def coq_core(t, n, s, h, p, g):
 def run(tier):
     chk = Check("C09", tier)
     chk.proofs(extra_files=["Corr/K09.v"])
+    if getattr(chk, "proof_ok", False) and not chk.coverage["print_assumptions"]["closed_theorems"]:
+        # an unrelated file of the development failed to build: common.proofs() re-ran Print Assumptions for the
+        # verdict but kept the empty record; record what Props/C09.v printed
+        from common import print_assumptions, parse_assumptions
+        rc, out = print_assumptions("C09")
+        if rc == 0:
+            closed, axioms = parse_assumptions(out)
+            chk.coverage["print_assumptions"] = {"closed_theorems": closed, "axioms": axioms}
+            chk.coverage["trusted_base"][-1] = ("Print Assumptions for Props/C09.v: %d theorem(s) 'Closed under the global "
+                                                "context'; axioms: %s" % (closed, ", ".join(axioms) if axioms else "none"))
     rng = chk.rng
     cov = chk.coverage
     thorough = tier == "thorough"
